@@ -202,6 +202,22 @@ def observables(env, eng, backend, n):
                           for k in range(4)]
         o["fidelity_vacuum"] = float(np.real(st.fidelity_vacuum()))
     o["quad"] = [np.asarray(st.quad_expectation(m, 0.3), dtype=complex) for m in range(n)] if backend != "bosonic" else None
+    # further dimensionless observables, on proper subsets of the modes as well
+    subsets = [[0]] + ([[n - 1], list(range(n))] if n > 1 else [])
+    if backend in ("gaussian", "fock"):
+        o["parity"] = [complex(st.parity_expectation(list(sub))) for sub in subsets]
+        o["number"] = [np.asarray(st.number_expectation(list(sub[:2])), dtype=complex) for sub in subsets]
+    al = [0.2 + 0.1j * k for k in range(n)]
+    o["fidelity_coherent"] = complex(st.fidelity_coherent(al)) if backend != "bosonic" or n == 1 else None
+    if backend == "gaussian":
+        o["is_coherent"] = [bool(st.is_coherent(m)) for m in range(n)]
+        o["is_squeezed"] = [bool(st.is_squeezed(m)) for m in range(n)]
+        o["squeezing"] = np.asarray(st.squeezing(), dtype=complex)
+        o["displacement"] = np.asarray(st.displacement(), dtype=complex)
+        o["reduced_dm"] = np.asarray(st.reduced_dm([0], cutoff=5))
+        # the queries above must not have changed the state object
+        o["means_after"] = np.asarray(st.means())
+        o["cov_after"] = np.asarray(st.cov())
     return o
 
 
@@ -281,6 +297,20 @@ def run_case(case, rep, env):
         if "fock_prob" in o1:
             cmp("fock_prob", o1["fock_prob"], o2["fock_prob"], 1.0)
             cmp("fidelity_vacuum", o1["fidelity_vacuum"], o2["fidelity_vacuum"], 1.0)
+        for key in ("parity", "number", "fidelity_coherent", "squeezing", "displacement", "reduced_dm"):
+            if o1.get(key) is not None:
+                cmp(key, np.asarray(o1[key], dtype=complex), np.asarray(o2[key], dtype=complex), 1.0)
+        for key in ("is_coherent", "is_squeezed"):
+            if key in o1 and o1[key] != o2[key]:
+                V(backend + ".state." + key, "hbar-scaling", "%s = %s at hbar=%s but %s at hbar=%s" % (key, o1[key], h1, o2[key], h2))
+                return
+        for o, h in ((o1, h1), (o2, h2)):
+            if "means_after" in o:
+                if np.max(np.abs(o["means_after"] - o["means"])) > 1e-12 or np.max(np.abs(o["cov_after"] - o["cov"])) > 1e-12:
+                    V(backend + ".state", "query-mutates-state", "at hbar=%s the state's means / cov changed by %.3e after calling its own "
+                      "query methods (is_coherent / is_squeezed / squeezing / displacement / reduced_dm)" % (
+                          h, max(np.max(np.abs(o["means_after"] - o["means"])), np.max(np.abs(o["cov_after"] - o["cov"])))))
+                    return
         if o1.get("quad") is not None:
             for x, y in zip(o1["quad"], o2["quad"]):
                 cmp("quad_expectation.mean", x[0], y[0], np.sqrt(ratio))
